@@ -97,6 +97,12 @@ class Run:
         self.seam.separate_hosts = bool(knobs.get("separate_hosts"))
         self.server = None
         self.boots = 0
+        # the wall clock follows the simulated clock (code that looks at time.time() / file ages sees virtual days pass)
+        import time as _time
+        self._real_time = _time.time
+        t0 = self._real_time()  # files written during the run carry real mtimes: ages come out as the virtual time that has passed
+        loop = self.sim.loop
+        _time.time = lambda: t0 + loop._vt
         CUR = self
 
     def ev(self, *a):
@@ -127,6 +133,8 @@ class Run:
     def finish(self):
         global CUR
         CUR = None
+        import time as _time
+        _time.time = self._real_time
         self.seam.detach()
         self.sim.teardown()
 
